@@ -226,7 +226,7 @@ func allPositions() []*position {
 
 	// ================= LogQL through /loki/api/v1/query_range =================
 	for _, op := range []string{"=", "!=", "=~", "!~"} {
-		add(logqlPositions("matcher"+op, "StringVal", "{a"+op+"%s}", qlString, exactWant)...)
+		add(logqlPositions("matcher"+op, "StringVal", "{a"+op+"%s}", qlString, matcherWant(op))...)
 		add(logqlPositions("labelfilter"+op, "StringVal", `{b="x"} | a`+op+"%s", qlString, exactWant)...)
 		add(logqlPositions("labelfilter.afterjson"+op, "StringVal", `{b="x"} | json c="c" | a`+op+"%s", qlString, exactWant)...)
 	}
@@ -306,7 +306,7 @@ func allPositions() []*position {
 	}
 	for _, op := range []string{"=", "=~"} {
 		op := op
-		add(&position{Name: "loki.label.values.match[]" + op, Group: "StringVal", Want: exactWant, Baselines: map[string]string{"default": marker},
+		add(&position{Name: "loki.label.values.match[]" + op, Group: "StringVal", Want: matcherWant(op), Baselines: map[string]string{"default": marker},
 			Build: func(s string) (*request, string, bool) {
 				t, eff, ok := qlString(s)
 				if !ok {
@@ -314,7 +314,7 @@ func allPositions() []*position {
 				}
 				return &request{Method: "GET", Path: "/loki/api/v1/label/a/values", Query: withQ(nsRange, "match[]", "{a"+op+t+"}")}, eff, true
 			}})
-		add(&position{Name: "loki.series.match[]" + op, Group: "StringVal", Want: exactWant, Baselines: map[string]string{"default": marker},
+		add(&position{Name: "loki.series.match[]" + op, Group: "StringVal", Want: matcherWant(op), Baselines: map[string]string{"default": marker},
 			Build: func(s string) (*request, string, bool) {
 				t, eff, ok := qlString(s)
 				if !ok {
@@ -330,7 +330,7 @@ func allPositions() []*position {
 	for _, op := range []string{"=", "!=", "=~", "!~"} {
 		op := op
 		mk := func(name, path string, base url.Values, key, tmpl string) {
-			add(&position{Name: name + op, Group: "StringVal", Want: exactWant, Baselines: map[string]string{"default": marker},
+			add(&position{Name: name + op, Group: "StringVal", Want: matcherWant(op), Baselines: map[string]string{"default": marker},
 				Build: func(s string) (*request, string, bool) {
 					t, eff, ok := goQuote(s)
 					if !ok {
@@ -423,7 +423,7 @@ func allPositions() []*position {
 
 	// ================= Pyroscope =================
 	profSel := func(name, group, tmpl string, q quoter, build func(sel string) *request) {
-		add(&position{Name: name, Group: group, Want: exactWant, Baselines: map[string]string{"default": marker},
+		add(&position{Name: name, Group: group, Want: matcherWant(name), Baselines: map[string]string{"default": marker},
 			Build: func(s string) (*request, string, bool) {
 				t, eff, ok := q(s)
 				if !ok || !utf8.ValidString(s) {
